@@ -7,9 +7,9 @@ Lemma code_skeleton_ok : sk_ok code_skeleton = true.
 Proof. vm_compute. reflexivity. Qed.
 Lemma code_points_complete : points_complete code_skeleton = true.
 Proof. vm_compute. reflexivity. Qed.
-(* K1, as the code is: a failure of daily_log.write or of COMMIT leaves through `?` without ROLLBACK *)
-Lemma code_no_rollback_after_marks_or_commit :
-  sk_marks_rollback code_skeleton = false /\ sk_commit_rollback code_skeleton = false.
+(* K1 repaired (d89b357): a failure of daily_log.write or of COMMIT rolls the transaction back *)
+Lemma code_rollback_after_marks_and_commit :
+  sk_marks_rollback code_skeleton = true /\ sk_commit_rollback code_skeleton = true.
 Proof. vm_compute. split; reflexivity. Qed.
 
 (* ------------------------------------------------------------------ the arm table *)
@@ -53,6 +53,7 @@ Record arm_good (a : arm) : Prop := {
 Lemma sk_ok_arm : forall sk k, sk_ok sk = true -> exists a, arm_of sk k = Some a /\ a_kind a = k /\ arm_good a.
 Proof.
   intros sk k H. unfold sk_ok in H.
+  apply andb_true_iff in H. destruct H as [H Hexits].
   apply andb_true_iff in H. destruct H as [H Hroutes].
   apply andb_true_iff in H. destruct H as [H Hfall].
   apply andb_true_iff in H. destruct H as [H Hack].
@@ -481,7 +482,7 @@ Proof.
   assert (Hlen : length (concat batches) = length (rr_items r)) by (rewrite <- Hreqs; apply map_length).
   rewrite Hlen.
   set (live := fun q : req => if rr_alive r then vis d' q else -1).
-  set (tail7 := [zb (rr_alive r); zn (if rr_alive r then rr_hits r else rr_last r); zb (loginv_b d'); zb (consistent_b dr); 1; 1]).
+  set (tail7 := [zb (rr_alive r); zn (if rr_alive r then rr_hits r else rr_last r); zb (loginv_b d'); zb (consistent_b dr); 1; 1; 1]).
   rewrite <- !app_assoc.
   pose proof (triples_flat item (fun x => ack_code (it_ack x)) (fun x => live (it_req x)) (fun x => vis dr (it_req x)) (rr_items r)
                 (flat_map (fun x : req * bool => [if snd x then 2 else 0; live (fst x); vis dr (fst x)]) unsent ++ tail7 ++ [zb (wf_case (CRun init batches unsent f))])) as T1.
@@ -592,21 +593,70 @@ Proof.
   split; [apply Hv1; exact Hx|]. split; [apply vis_data; apply data_eq_recompute|]. split; assumption.
 Qed.
 
-(* (5) K1 as the code is: once the connection is left inside a transaction, every later batch is reported
-   failed and changes nothing, until the process restarts *)
-Theorem wedged_forever : forall sk sched n st b st' o n' last,
-  w_stuck st = true -> run_batch sk sched n st b = (st', o, n', last) ->
-  st' = st /\ (o = Returned false \/ o = Died false).
+(* (5) K1 repaired: every error exit of process_batch_write rolls back, so the connection is never left inside
+   a transaction: a failed batch does not take the writer out of service *)
+Definition res_unstuck (r : txn_res) : Prop := match r with TErr _ s => s = false | _ => True end.
+Lemma group_steps_unstuck : forall sched a gs acc, a_rollback a = true -> res_unstuck acc ->
+  res_unstuck (fold_left (group_step sched a) gs acc).
 Proof.
-  intros sk sched n st b st' o n' last Hs H. unfold run_batch in H. rewrite Hs in H.
-  destruct (sched (n + 1)%N); unfold ack_point in H;
-    try (destruct (sched (n + 1 + 1)%N); inversion H; subst; auto); inversion H; subst; auto.
+  intros sched a. induction gs as [|g gs IH]; intros acc Ha H; cbn [fold_left]; [exact H|].
+  apply IH; [exact Ha|]. unfold group_step. destruct acc as [n t|n s|n p]; try exact H.
+  destruct (sched (n + 1)%N); [destruct (sched (n + 2)%N); exact I|cbn; rewrite Ha; reflexivity|exact I].
 Qed.
+Lemma req_steps_unstuck : forall sk sched b acc, arms_rollback sk = true -> res_unstuck acc ->
+  res_unstuck (fold_left (req_step sk sched) b acc).
+Proof.
+  intros sk sched. induction b as [|r b IH]; intros acc Hrb H; cbn [fold_left]; [exact H|].
+  apply IH; [exact Hrb|]. unfold req_step. destruct (arm_of sk (r_kind r)) as [a|] eqn:Ea; [|exact H].
+  destruct (a_fallible a) eqn:Ef; [|exact H]. apply group_steps_unstuck; [|exact H].
+  destruct (arm_of_some _ _ _ Ea) as [Hin _]. unfold arms_rollback in Hrb. rewrite forallb_forall in Hrb.
+  specialize (Hrb a Hin). rewrite Ef in Hrb. exact Hrb.
+Qed.
+Theorem never_wedged : forall sk sched n st b st' o n' last,
+  sk_ok sk = true -> w_stuck st = false -> run_batch sk sched n st b = (st', o, n', last) -> w_stuck st' = false.
+Proof.
+  intros sk sched n st b st' o n' last Hok Hs H. unfold sk_ok in Hok.
+  apply andb_true_iff in Hok. destruct Hok as [Hok Hexits].
+  apply andb_true_iff in Hok. destruct Hok as [Hok _].
+  apply andb_true_iff in Hok. destruct Hok as [Hok _].
+  apply andb_true_iff in Hok. destruct Hok as [Hok _].
+  apply andb_true_iff in Hok. destruct Hok as [_ Hrb].
+  unfold exits_rollback in Hexits. apply andb_true_iff in Hexits. destruct Hexits as [Hm Hc].
+  assert (Hack : forall stx ok nx, w_stuck stx = false -> ack_point sched stx ok nx = (st', o, n', last) -> w_stuck st' = false).
+  { intros stx ok nx Hx E. unfold ack_point in E. destruct (sched (nx + 1)%N); inversion E; subst; exact Hx. }
+  unfold run_batch in H. rewrite Hs in H.
+  destruct (sched (n + 1)%N).
+  - pose proof (req_steps_unstuck sk sched b (TGo (n + 1) (w_disk st)) Hrb I) as Hu.
+    destruct (fold_left (req_step sk sched) b (TGo (n + 1) (w_disk st))) as [n1 t|n1 s|n1 p].
+    + destruct (sched (n1 + 1)%N).
+      * destruct (sched (n1 + 2)%N).
+        -- destruct (sched (n1 + 3)%N); try (eapply Hack; [|exact H]; reflexivity). inversion H; subst. reflexivity.
+        -- eapply Hack; [|exact H]. cbn. rewrite Hc. reflexivity.
+        -- inversion H; subst. exact Hs.
+      * eapply Hack; [|exact H]. cbn. rewrite Hm. reflexivity.
+      * inversion H; subst. exact Hs.
+    + cbn in Hu. subst s. eapply Hack; [|exact H]. reflexivity.
+    + inversion H; subst. exact Hs.
+  - eapply Hack; [|exact H]. exact Hs.
+  - inversion H; subst. exact Hs.
+Qed.
+Theorem run_never_wedged : forall sk sched bs n st au,
+  sk_ok sk = true -> w_stuck st = false -> w_stuck (rr_state (run_batches sk sched n st au bs)) = false.
+Proof.
+  intros sk sched. induction bs as [|b bs IH]; intros n st au Hok Hs; cbn [run_batches]; [exact Hs|].
+  destruct (run_batch sk sched n st b) as [[[st' o] n'] last] eqn:E.
+  pose proof (never_wedged _ _ _ _ _ _ _ _ _ Hok Hs E) as Hs'.
+  destruct o as [ok|c]; [|exact Hs'].
+  destruct (ack_batch sk ok au b) as [items au']. cbn [rr_state]. apply IH; assumption.
+Qed.
+(* a failed batch is followed by a batch that commits (closed example on the code's skeleton: COMMIT of the first
+   batch fails, the second batch is applied and acknowledged) *)
 Definition k1_req : req := mkReq KMutation [[Put 1 7 7]] [1%N] ANone.
-Lemma wedge_reachable :
-  exists sched, let '(st', o, _, _) := run_batch code_skeleton sched 0 {| w_disk := init_disk []; w_stuck := false |} [k1_req] in
-                w_stuck st' = true /\ o = Returned false.
-Proof. exists (sched_of (FFail 4)). vm_compute. split; reflexivity. Qed.
+Definition k1_req2 : req := mkReq KMutation [[Put 1 8 8]] [1%N] ANone.
+Lemma service_continues :
+  let r := run_batches code_skeleton (sched_of (FFail 5)) 0 {| w_disk := init_disk []; w_stuck := false |} true [[k1_req]; [k1_req2]] in
+  map (fun x => (it_ack x, it_committed x)) (rr_items r) = [(Some false, false); (Some true, true)] /\ w_stuck (rr_state r) = false.
+Proof. vm_compute. split; reflexivity. Qed.
 
 (* (6) the known class is real: closed witness = the directed case the harness replays on the real code *)
 Definition k2_witness : c13case :=
@@ -624,5 +674,5 @@ Definition nonvacuous_case : c13case :=
          mkReq KDeletion [[Del 1 20000]] [1%N] ANone; mkReq KCompute [[]] [] ANone]]
        [(mkReq KNodes [[Put 1 105 105]; [Put 1 106 106]] [1%N] ANone, false)] (FKill 17).
 Lemma nonvacuous : wf_case nonvacuous_case = true /\ known_C13 nonvacuous_case = [] /\
-  run_C13 nonvacuous_case = [1; -1; 1;  0; -1; 1;  0; -1; 1;  0; -1; 1;  0; -1; 0;  0; 6; 1; 1; 1; 1; 1].
+  run_C13 nonvacuous_case = [1; -1; 1;  0; -1; 1;  0; -1; 1;  0; -1; 1;  0; -1; 0;  0; 6; 1; 1; 1; 1; 1; 1].
 Proof. vm_compute. repeat split; reflexivity. Qed.
